@@ -53,7 +53,7 @@ func mustCallSites(e *Engine, fn *ssa.Function, target string, depth int) []ssa.
 }
 
 func init() {
-	register(&Rule{ID: "C10.triggers", Props: []string{"C10", "C08"}, Floor: 11,
+	register(&Rule{ID: "C10.triggers", Props: []string{"C10", "C08", "C05"}, Floor: 11,
 		Doc: "every power-changing event schedules a rebalance on every success path",
 		Run: func(e *Engine, r *RuleRun) {
 			var hooks []string
@@ -141,7 +141,7 @@ func init() {
 			}
 		}})
 
-	register(&Rule{ID: "C10.order", Props: []string{"C10", "C17"}, Floor: 7,
+	register(&Rule{ID: "C10.order", Props: []string{"C10", "C17", "C01", "C09", "C14"}, Floor: 7,
 		Doc: "EndBlocker runs maturing, initialisation, take rate and decay before the rebalance, on the same asset list; rebalance iff flag consumed",
 		Run: func(e *Engine, r *RuleRun) {
 			fn := r.Need("alliance.EndBlocker")
@@ -528,10 +528,14 @@ func init() {
 			r.Check(denom.Op == "extract" && denom.Args[0].IsCall("types.StakingKeeper.BondDenom"), fk, "balance in the staking denom", "BondDenom", "denom is "+denom.String(), r.P(gb))
 			c := singleCoin(argT(fa, burn, 2))
 			r.Check(c != nil && c.Eq(resultT(fa, gb)) && moduleName(argT(fa, burn, 1)) == "alliance", fk, "burns the whole balance from the module account", "BurnCoins(alliance, [GetBalance result])", "burn argument is "+argT(fa, burn, 2).String()+" from "+argT(fa, burn, 1).String(), r.P(burn))
-			okG := fa.HasGuard(burn, func(g Guard) bool { return !g.Pos && g.Cond.IsCall("sdk.Coin.IsZero") && g.Cond.Args[0].Eq(resultT(fa, gb)) })
+			okG := fa.HasGuard(burn, func(g Guard) bool {
+				return !g.Pos && g.Cond.IsCall("sdk.Coin.IsZero") && g.Cond.Args[0].Eq(resultT(fa, gb))
+			})
 			r.Check(okG, fk, "burn iff balance non-zero", "guarded by !coin.IsZero()", "burn is not guarded by the non-zero test of the same balance", r.P(burn))
 			// every success exit passes the balance read; the only way around the burn is the IsZero edge
-			prune := func(g Guard) bool { return g.Pos && g.Cond.IsCall("sdk.Coin.IsZero") && g.Cond.Args[0].Eq(resultT(fa, gb)) }
+			prune := func(g Guard) bool {
+				return g.Pos && g.Cond.IsCall("sdk.Coin.IsZero") && g.Cond.Args[0].Eq(resultT(fa, gb))
+			}
 			if trail := fa.mustReachPruned(fn.Blocks[0].Instrs[0], []ssa.Instruction{burn}, func(ret *ssa.Return) bool { return !fa.IsErrorExit(ret) }, prune); trail != nil {
 				r.Bad(fk, "sweep on every success exit", "CompleteUnbondings can succeed without sweeping staking-denom coins from the module account", trail, r.P(burn))
 			} else {
